@@ -192,7 +192,10 @@ class DocGen:
         n = rnd.randint(1, 4)
         s = []
         for _ in range(n):
-            if rnd.random() < self.wide:
+            if getattr(self, "odd_chars", False) and rnd.random() < 0.04:
+                # characters that codecs treat specially (byte order marks, noncharacters, NUL-like)
+                s.append(rnd.choice(["\ufeff", "\ufffe", "\uffff", "\u200b"]))
+            elif rnd.random() < self.wide:
                 s.append(rnd.choice(TEXT_WIDE))
             else:
                 s.append(rnd.choice(TEXT_PLAIN))
